@@ -236,6 +236,34 @@ def run_portfolio(c):
         steps.append({'res': res, 'snap': pf_snap(pf),
                       'pub': [[a, num(v['quantity']), num(v['market_value']), num(v['unrealised_pnl']),
                                num(v['realised_pnl']), num(v['total_pnl'])] for a, v in d.items()]})
+    # the same operations on a second Portfolio whose state is looked at only now and then (every third step):
+    # what is read there must be what was read after the same step above - reading must not change anything
+    sparse = []
+    try:
+        pf2 = Portfolio(ts(c['start']), starting_cash=c['cash'], portfolio_id='p')
+        for i, op in enumerate(c['ops']):
+            k = op[0]
+            try:
+                if k == 'sub':
+                    pf2.subscribe_funds(ts(op[1]), op[2])
+                elif k == 'wd':
+                    pf2.withdraw_funds(ts(op[1]), op[2])
+                elif k == 'txn':
+                    pf2.transact_asset(Transaction(op[1], op[2], ts(op[3]), op[4], 'oid', commission=op[5]))
+                elif k == 'mark':
+                    pf2.update_market_value_of_asset(op[1], op[2], ts(op[3]))
+            except Exception:
+                pass
+            if i % 3 == 2 or i == len(c['ops']) - 1:
+                d2 = pf2.portfolio_to_dict()
+                pub2 = [[a, num(v['quantity']), num(v['market_value']), num(v['unrealised_pnl']),
+                         num(v['realised_pnl']), num(v['total_pnl'])] for a, v in d2.items()]
+                # (the last field of a snapshot hashes the events' repr, which spells their time zone: left out)
+                if pub2 != steps[i]['pub'] or pf_snap(pf2)[:10] != steps[i]['snap'][:10]:
+                    sparse.append([i, pub2, steps[i]['pub']])
+                    break
+    except Exception as e:
+        sparse.append(['error'] + errname(e))
     hist = [event_snap(e) for e in pf.history]
     # Position.update_current_price has an optional timestamp: a mark given without one must still be the latest price
     probe = []
@@ -247,7 +275,7 @@ def run_portfolio(c):
             probe.append([a, num(newp), num(pos.current_price), num(pos.net_quantity), num(d[a]['market_value']), num(pf.total_market_value)])
         except Exception as e:
             probe.append([a] + errname(e))
-    return {'snap0': snap0, 'steps': steps, 'hist': hist, 'probe': probe}
+    return {'snap0': snap0, 'steps': steps, 'hist': hist, 'probe': probe, 'sparse_reads': sparse}
 
 
 def handler(c):
